@@ -196,7 +196,7 @@ func TestVerif_C17(t *testing.T) {
 			}
 			r.Add("client_writes_never_returned", hungWriters)
 			// every client side has returned (and closed its conn); now the mesh must drain.
-			last, zero, unchanged, samples := c17Settle(m, 40*time.Second, 12*time.Second)
+			last, zero, unchanged, samples := c17Settle(m, 40*time.Second, 9*time.Second)
 			r.Add("bookkeeping_samples", samples)
 			r.Add("scenarios_"+out.Class, 1)
 			r.Add("tunnels", out.Tunnels)
@@ -205,7 +205,7 @@ func TestVerif_C17(t *testing.T) {
 				r.Add("scenarios_with_link_kill", 1)
 			}
 			if !zero {
-				if unchanged < 12*time.Second {
+				if unchanged < 9*time.Second {
 					r.Inconclusive(fmt.Sprintf("%s: bookkeeping still changing when the settle watchdog fired: %+v", tp.Name, last))
 				} else {
 					desc := ""
@@ -317,7 +317,7 @@ func c17BackpressureKill(t *testing.T, r *verifkit.R) {
 			c.Close()
 		}
 		cs := <-done
-		last, zero, unchanged, samples := c17Settle(m, 40*time.Second, 12*time.Second)
+		last, zero, unchanged, samples := c17Settle(m, 40*time.Second, 9*time.Second)
 		r.Add("bookkeeping_samples", samples)
 		r.Add("backpressure_kill_scenarios", 1)
 		r.Add("peak_entries_seen", int(peakExit))
@@ -325,7 +325,7 @@ func c17BackpressureKill(t *testing.T, r *verifkit.R) {
 			r.Add("client_writes_never_returned", 1)
 		}
 		if !zero {
-			if unchanged < 12*time.Second {
+			if unchanged < 9*time.Second {
 				r.Inconclusive(fmt.Sprintf("backpressure-kill: bookkeeping still changing: %+v", last))
 			} else {
 				r.Violation("clean:record-remains-after-link-teardown-under-backpressure", "backpressure-kill", ci,
@@ -349,7 +349,7 @@ func c17KillAtOpen(t *testing.T, r *verifkit.R) {
 	for _, x := range c16Topologies() {
 		byName[x.Name] = x
 	}
-	r.Cases("kill-at-open", r.N(6, 60), func(ci int, rng *verifkit.Rand) {
+	r.Cases("kill-at-open", r.N(8, 60), func(ci int, rng *verifkit.Rand) {
 		tp := byName[[]string{"pair", "chain3"}[ci%2]]
 		exitNode := len(tp.Spec.Names) - 1
 		dest, err := mkStartDest()
@@ -393,6 +393,9 @@ func c17KillAtOpen(t *testing.T, r *verifkit.R) {
 		tap.mu.Unlock()
 		for k := 0; k < 2; k++ {
 			p := mkTunnelPlan{ID: uint64(ci)<<20 | uint64(k+1), Ingress: 0, Via: "tcp", Dest: fmt.Sprintf("127.%d.0.%d:%d", tp.Exits[exitNode], 10+k, dest.port), C2S: 100, S2C: 100, Mode: mkModeOrderly, Chunk: 50}
+			if (ci/2)%2 == 1 {
+				p.Via = "forward:fwd-exit" // the forward endpoint has the same accept-then-ack shape
+			}
 			mkRunTunnel(m, p, 3*time.Second)
 			amu.Lock()
 			done := kills > 0
@@ -402,13 +405,13 @@ func c17KillAtOpen(t *testing.T, r *verifkit.R) {
 			}
 		}
 		dialled := dest.accepts.Load()
-		last, zero, unchanged, samples := c17Settle(m, 40*time.Second, 12*time.Second)
+		last, zero, unchanged, samples := c17Settle(m, 40*time.Second, 9*time.Second)
 		r.Add("bookkeeping_samples", samples)
 		r.Add("kill_at_open_scenarios", 1)
 		r.Add("kill_at_open_links_killed", kills)
 		r.Add("kill_at_open_destination_dialled", int(dialled))
 		if !zero {
-			if unchanged < 12*time.Second {
+			if unchanged < 9*time.Second {
 				r.Inconclusive(fmt.Sprintf("kill-at-open: bookkeeping still changing: %+v", last))
 			} else {
 				r.Violation("clean:record-remains-after-undeliverable-open-ack", "kill-at-open", ci,
